@@ -552,6 +552,9 @@ def run(ctx):
                       "flavour from the reading host, not from the stored tag", rt, f"returns {concrete[0]}(...) or {concrete[1]}(...)", key=f"R1.10:{q10.split('fieldtypes.')[1]}:flavour-from-host")
     ctx.floor("R1.10", "returns of flavoured decoders", n10, 3)
 
+    # ------------------------------------------------------------------ R1.11 (sibling rule) every descriptor frame is registered
+    ctx.import_rule("C03", "R3.5", "R1.11", "a record is decoded only if its descriptor frame was registered: readers register every descriptor frame unconditionally")
+
 
 
 def _always_leaves(stmts) -> bool:
